@@ -150,13 +150,20 @@ class MessageSigner(object):
 
         # Calculate the specific public key used to sign this message.
         y_parity = recid & 1
-        q = self._generator.possible_public_pairs_for_signature(
-            msg_hash, (r, s), y_parity=y_parity
-        )[0]
-        if recid > 1:
-            order = self._generator.order()
-            q = self._generator.Point(q[0] + order, q[1])
-        return q, is_compressed
+        order = self._generator.order()
+        if not (1 <= r < order and 1 <= s < order):
+            raise EncodingError("r or s out of range")
+        # r only enters the recovery modulo the order, except as the x coordinate
+        # of the nonce point, which is r + order when the recovery id says so
+        x = r + order if recid > 1 else r
+        if x >= self._generator.p():
+            raise EncodingError("no nonce point for this recovery id")
+        pairs = self._generator.possible_public_pairs_for_signature(
+            msg_hash, (x, s), y_parity=y_parity
+        )
+        if len(pairs) == 0:
+            raise EncodingError("no public key can be recovered")
+        return pairs[0], is_compressed
 
     def pair_matches_key(self, pair: Any, key: Any, is_compressed: bool) -> bool:
         # Check signing public pair is the one expected for the signature. It must be an
@@ -208,7 +215,10 @@ class MessageSigner(object):
         Decode the internal fields of the base64-encoded signature.
         """
 
-        sig = a2b_base64(signature)
+        try:
+            sig = a2b_base64(signature)
+        except ValueError:
+            raise EncodingError("not base64")
         if len(sig) != 65:
             raise EncodingError("Wrong length, expected 65")
 
